@@ -115,15 +115,21 @@ func builtinJSONReviveWalk(ctx builtinJSONParseContext, holder *object, name str
 				}
 			}
 		} else {
+			// The keys are taken before any is walked: one that the reviver deletes
+			// meanwhile is still visited, with undefined.
+			var names []string
 			obj.enumerate(false, func(name string) bool {
+				names = append(names, name)
+				return true
+			})
+			for _, name := range names {
 				enumVal := builtinJSONReviveWalk(ctx, obj, name)
 				if enumVal.IsUndefined() {
 					obj.delete(name, false)
 				} else {
 					obj.defineProperty(name, enumVal, 0o111, false)
 				}
-				return true
-			})
+			}
 		}
 	}
 	return ctx.reviver.call(ctx.call.runtime, objectValue(holder), name, value)
